@@ -1,6 +1,6 @@
 #!/usr/bin/env python3
-"""Translator: straight-line ARITHMETIC code of /repo -> /verif/lean/PP/Gen/Arith.lean
-(python3 stdlib only).
+"""Translator: ARITHMETIC code of /repo (straight-line code, `if`s, `for` loops over bit iterators and
+constant tables) -> /verif/lean/PP/Gen/Arith.lean  (python3 stdlib only).
 
 What it does.  Each target function (table TARGETS below) is located in the Rust source, parsed
 with a small recursive-descent parser for the Rust subset listed below, and printed as ONE Lean
@@ -33,15 +33,44 @@ Conventions of the generated Lean (fixed, independent of the hand model):
   * `u64` values are Lean `UInt64`; `usize` values are `Nat` (only `%` small constants is applied);
   * `TABLE[i % n]` is `tbl.getD (i % n) 0` on the model's table; `n` must not exceed the length N in
     the declaration `const TABLE: [T; N]` of fq.rs, and `tbl.length = N` is emitted as a theorem
-    (so the default `0` is never used, as the Rust index never panics).
+    (so the default `0` is never used, as the Rust index never panics);
+  * `for x in L { body }` (L a `BitIterator` or `&TABLE[..]` of a constant table) is
+        let st := List.foldl (fun st x => body'; st) st L
+    where st is the tuple of the OUTER variables that the body assigns (found by a first, recording
+    translation pass of the body), in order of declaration;
+  * `for x in L { ..; if c { ..; return V; } }` (the body assigns no outer variable) followed by R is
+        match List.findSome? (fun x => ..; if c then ..; some V else none) L with
+        | some ret => ret | none => R           (`some ret` / Option-valued R in a function that may panic)
+  * an `if` statement that is followed by further statements and is not an early return becomes
+        let st := if c then ..; st else ..; st        (st = the outer variables assigned in the branches)
+  * `panic!(..)` as the last statement is `none`, the function is Option-valued (as with `unwrap`);
+    a call of a function that may panic in `let v = f(..);` is `match f .. with | none => none | some v =>`;
+    `debug_assert!(..)` is dropped (RELEASE semantics) and shown as a comment;
+  * `match e { Enum::A => .., .. }` on `Ordering` / `Sgn0Result` is a Lean `match`, arms in source order;
+  * in a function over the CONCRETE fields `let [a, b, ..] = e` / `let S { f, g } = e` is `let patN := e`
+    followed by one projection `let` per variable (a Lean pattern would be a `match` on a concrete
+    value, which the kernel evaluates when a proof unfolds the definition); `let (a, b) = e` stays a
+    Lean pattern (the model has the same `match`);
+  * primitives that are NOT in /repo (derive-generated or the ff crate) are taken from the model:
+    `x.sqrt()`, `x.legendre()` of the coefficient field = `SqrtOps.sqrt/legendre`, `a < b` = `SqrtOps.lt`,
+    `Fq::cmp` = `compare a.v b.v`, `x.into_repr().0[0] & 1 == 1` = `x.v % 2 = 1` (lowest bit of the
+    canonical representative), `BitIterator::new(r)` = `bitsMSB (limbsOf 4 r)` (a scalar `S: Into<Repr>`
+    is a `Nat`, taken after `.into()`), `a.pow([limbs])` = `powLimbs`; the addition chains
+    (`chain_pm3div4` ..) are extracted elsewhere (PP/Gen/Chains.lean) and called through the model;
+  * a function that is generic over a TRAIT (`map_to_curve`) gets the trait methods it calls as
+    parameters (named as in Rust, in the fixed order `osswu_map isogeny_map clear_h add_assign`; the
+    theorems pass them BY NAME) and abstract types `{Base PtT : Type}`;
+  * generic code (the curve macro, `osswu_help`, `negate_if`) applied to `Fq2` values is elaborated
+    with the GENERATED `Fq2` operations as local instances (section `attribute [local instance]`).
 
 Rust subset understood (anything else raises ExtractError naming the function and the statement):
-  statements   let [mut] x = E;  let (a, b, c) = E;  P.m(args);  P = E;  x >>= n;  x <<= n;
-               f(&mut P, args);  swap(&mut P, &mut Q);  return [E];  { ... }  if C { } [else { }]
+  statements   let [mut] x = E;  let (a, b, c) = E;  let [a, _, ..] = E;  let S { f, g } = E;  P.m(args);
+               P = E;  x >>= n;  x <<= n;  f(&mut P, args);  swap(&mut P, &mut Q);  return [E];  { ... }
+               if C { } [else { }]  for x in E { }  panic!(..);  debug_assert!(..);
                use std::mem::swap;  nested fn items that are themselves targets
   expressions  places (self, locals, fields, *x, tuple .0), T::zero() T::one(), struct literals,
-               tuples, arrays, blocks, if/else, match on Option, .map(|t| ..), Some/None,
-               == != && || ! % >> <<, TABLE[i], method calls
+               tuples, arrays, blocks, if/else, match on Option / enum, .map(|t| ..), Some/None,
+               enum constants, == != < && || ! ^ % >> <<, TABLE[i], &TABLE[..], method calls
 
 API for extract.py:
     import extract_arith
@@ -126,7 +155,8 @@ def find_container(src, a, b, rx, what):
 TOKEN = re.compile(r"""
    (?P<num>0x[0-9a-fA-F_]+|[0-9][0-9_]*)(?P<suf>u64|usize|u32|u8|i64|u128)?
   |(?P<id>\$?[A-Za-z_][A-Za-z0-9_]*)
-  |(?P<op>::|->|=>|==|!=|&&|\|\||>>=|<<=|>>|<<|<=|>=|[-+*/%&|!=<>.,;:(){}\[\]\#?'^])
+  |(?P<str>"(?:[^"\\]|\\.)*")
+  |(?P<op>::|->|=>|==|!=|&&|\|\||>>=|<<=|>>|<<|<=|>=|\.\.|[-+*/%&|!=<>.,;:(){}\[\]\#?'^])
 """, re.X)
 
 
@@ -155,6 +185,8 @@ def tokenize(src, a, b):
             toks.append(Tok("num", int(t, 16) if t.startswith("0x") else int(t), i, m.end()))
         elif m.group("id") is not None:
             toks.append(Tok("id", m.group("id"), i, m.end()))
+        elif m.group("str") is not None:
+            toks.append(Tok("str", m.group("str"), i, m.end()))
         else:
             toks.append(Tok("op", m.group("op"), i, m.end()))
         i = m.end()
@@ -172,8 +204,10 @@ def tokenize(src, a, b):
 #               ('use', [seg..]) ('fn', name)
 # every node is followed by its source span: node[-1] = (a, b)
 
-BINPREC = {"||": 1, "&&": 2, "==": 3, "!=": 3, ">>": 5, "<<": 5, "%": 7}
-STRUCT_NAMES = ("Fq2", "Fq6", "Fq12", "$projective", "$affine")
+# Rust precedence, low -> high:  ||  &&  (== != < > <= >=)  ^  &  (<< >>)  (+ -)  (* / %)
+BINPREC = {"||": 1, "&&": 2, "==": 3, "!=": 3, "<": 3, ">": 3, "<=": 3, ">=": 3, "^": 4.2, "&": 4.5,
+           ">>": 5, "<<": 5, "+": 6, "-": 6, "*": 7, "/": 7, "%": 7}
+STRUCT_NAMES = ("Fq2", "Fq6", "Fq12", "$projective", "$affine", "G1", "G2")
 
 
 class Block:
@@ -204,7 +238,7 @@ class Parser:
 
     def at(self, v, k=0):
         t = self.peek(k)
-        return t is not None and t.k != "num" and t.v == v
+        return t is not None and t.k not in ("num", "str") and t.v == v
 
     def eat(self, v=None):
         t = self.peek()
@@ -255,6 +289,8 @@ class Parser:
                 self.err("array length")
             self.eat("]")
             return ("array", el, n.v)
+        if self.at("::"):
+            self.eat()
         segs = [self.ident()]
         while self.at("::"):
             self.eat()
@@ -330,9 +366,15 @@ class Parser:
                     self.err("bad token after '.'")
             elif self.at("["):
                 self.eat()
-                ix = self.expr()
-                self.eat("]")
-                e = ("index", e, ix, (a, self.lastend()))
+                lo = None if self.at("..") else self.expr()
+                if self.at(".."):
+                    self.eat()
+                    hi = None if self.at("]") else self.expr()
+                    self.eat("]")
+                    e = ("slice", e, lo, hi, (a, self.lastend()))
+                else:
+                    self.eat("]")
+                    e = ("index", e, lo, (a, self.lastend()))
             elif self.at("?"):
                 self.err("`?` is not supported")
             else:
@@ -426,6 +468,8 @@ class Parser:
                     self.err("expected , after match arm")
             self.eat("}")
             return ("match", scrut, arms, (a, self.lastend()))
+        if t.k == "str":
+            self.err("string literal")
         if t.v in ("for", "while", "loop", "unsafe", "break", "continue", "as", "move"):
             self.err("unsupported construct `%s`" % t.v)
         segs = [self.ident()]
@@ -435,7 +479,22 @@ class Parser:
                 self.err("turbofish is not supported")
             segs.append(self.ident())
         if self.at("!"):
-            self.err("macro invocation `%s!` is not supported" % "::".join(segs))
+            mname = "::".join(segs)
+            if mname not in ("panic", "debug_assert"):
+                self.err("macro invocation `%s!` is not supported" % mname)
+            self.eat("!")
+            if not self.at("("):
+                self.err("expected ( after %s!" % mname)
+            depth = 0
+            while True:
+                t = self.eat()
+                if t.k == "op" and t.v == "(":
+                    depth += 1
+                elif t.k == "op" and t.v == ")":
+                    depth -= 1
+                    if depth == 0:
+                        break
+            return (mname, (a, self.lastend()))
         if self.at("("):
             ar = self.args()
             return ("call", segs, ar, (a, self.lastend()))
@@ -491,7 +550,35 @@ class Parser:
             return ("ptuple", names, (a, self.lastend()))
         if self.at("mut"):
             self.eat()
+        if self.at("["):
+            self.eat()
+            names = []
+            while not self.at("]"):
+                if self.at("mut"):
+                    self.eat()
+                names.append(self.ident())
+                if self.at(","):
+                    self.eat()
+            self.eat("]")
+            return ("parray", names, (a, self.lastend()))
         n = self.ident()
+        if self.at("::"):
+            segs = [n]
+            while self.at("::"):
+                self.eat()
+                segs.append(self.ident())
+            return ("ppath", segs, (a, self.lastend()))
+        if self.at("{") and n in STRUCT_NAMES:
+            self.eat("{")
+            names = []
+            while not self.at("}"):
+                names.append(self.ident())
+                if self.at(":"):
+                    self.err("unsupported struct pattern (only the shorthand `S { f, g }`)")
+                if self.at(","):
+                    self.eat()
+            self.eat("}")
+            return ("pstruct", n, names, (a, self.lastend()))
         if n == "Some":
             self.eat("(")
             if self.at("mut"):
@@ -512,7 +599,7 @@ class Parser:
         if self.at("let"):
             self.eat()
             pat = self.pattern()
-            if pat[0] not in ("pvar", "ptuple"):
+            if pat[0] not in ("pvar", "ptuple", "parray", "pstruct"):
                 self.err("unsupported let pattern")
             ty = None
             if self.at(":"):
@@ -540,6 +627,19 @@ class Parser:
             while self.i < len(self.t) and self.t[self.i].a < e:
                 self.i += 1
             return ("fn", name, (a, e))
+        if self.at("for"):
+            self.eat()
+            pat = self.pattern()
+            if pat[0] != "pvar":
+                self.err("unsupported `for` pattern")
+            self.eat("in")
+            it = self.expr(nostruct=True)
+            if self.at(".."):
+                self.eat()
+                hi = self.expr(nostruct=True)
+                it = ("range", it, hi, (it[-1][0], hi[-1][1]))
+            body = self.block()
+            return ("for", pat, it, body, (a, self.lastend()))
         if self.at("return"):
             self.eat()
             e = None
@@ -571,15 +671,38 @@ def parse_fn(src, a, b, what):
     name = p.ident()
     generics = []
     if p.at("<"):
-        p.eat()
-        while not p.at(">"):
-            g = p.ident()
-            p.eat(":")
-            bound = p.ident()
-            generics.append((g, bound))
-            if p.at(","):
-                p.eat()
-        p.eat(">")
+        # generic parameters `<G: Bound, ..>`: read at character level (bounds may nest `<..>`)
+        o = p.peek().a
+        depth, j = 0, o
+        while True:
+            if src[j] == "<":
+                depth += 1
+            elif src[j] == ">" and src[j - 1] != "-":
+                depth -= 1
+                if depth == 0:
+                    break
+            j += 1
+        inner = src[o + 1:j]
+        parts, d, cur = [], 0, ""
+        for ch in inner:
+            if ch == "<":
+                d += 1
+            elif ch == ">":
+                d -= 1
+            if ch == "," and d == 0:
+                parts.append(cur)
+                cur = ""
+            else:
+                cur += ch
+        if cur.strip():
+            parts.append(cur)
+        for part in parts:
+            if ":" not in part:
+                p.err("generic parameter without bound")
+            g, bound = part.split(":", 1)
+            generics.append((g.strip(), "".join(bound.split())))
+        while p.i < len(p.t) and p.t[p.i].a <= j:
+            p.i += 1
     p.eat("(")
     params = []
     while not p.at(")"):
@@ -643,7 +766,10 @@ def fields_of(t):
 
 def lean_ty(t, paren=False):
     if isinstance(t, str):
-        return {"U64": "UInt64"}.get(t, t)
+        s = {"U64": "UInt64", "Repr": "Nat", "Bits": "List Bool"}.get(t, t)
+        return "(%s)" % s if paren and " " in s else s
+    if t[0] == "Raw":
+        return "(%s)" % t[1] if paren else t[1]
     if t[0] in ("Jac", "Aff"):
         s = "%s %s" % (t[0], lean_ty(t[1], True))
     elif t[0] == "Opt":
@@ -662,6 +788,51 @@ def head(t):
     return t if isinstance(t, str) else t[0]
 
 
+def subst(t, f):
+    """instantiate the generic coefficient field `F` of a declared type by f"""
+    if f is None or f == "F":
+        return t
+    if t == "F":
+        return f
+    if isinstance(t, tuple):
+        if t[0] == "Tup":
+            return ("Tup", tuple(subst(x, f) for x in t[1]))
+        if t[0] in ("Jac", "Aff", "Opt", "Help"):
+            return (t[0], subst(t[1], f))
+    return t
+
+
+def unify(decl, actual):
+    """the f with subst(decl, f) == actual, '' if decl does not mention F, None if impossible"""
+    if decl == "F":
+        return actual if actual in FIELD_LIKE + TOWER else None
+    if isinstance(decl, tuple) and isinstance(actual, tuple) and decl[0] == actual[0]:
+        if decl[0] == "Tup":
+            if len(decl[1]) != len(actual[1]):
+                return None
+            f = ""
+            for d, a in zip(decl[1], actual[1]):
+                g = unify(d, a)
+                if g is None or (f and g and f != g):
+                    return None
+                f = f or g
+            return f
+        if decl[0] in ("Jac", "Aff", "Opt", "Help"):
+            return unify(decl[1], actual[1])
+    return "" if decl == actual else None
+
+
+# enum constants of the Rust code: (type, variant) -> (Lean text, type)
+ENUMS = {
+    ("Sgn0Result", "Negative"): ("Sgn0.negative", "Sgn0"),
+    ("Sgn0Result", "NonNegative"): ("Sgn0.nonNegative", "Sgn0"),
+    ("Ordering", "Greater"): ("Ordering.gt", "Ordering"),
+    ("Ordering", "Less"): ("Ordering.lt", "Ordering"),
+    ("Ordering", "Equal"): ("Ordering.eq", "Ordering"),
+}
+ENUM_SIZE = {"Sgn0": 2, "Ordering": 3}
+
+
 # Lean names of the generated functions: Rust method name -> Lean name
 LEAN_METHOD = {
     "mul_assign": "mul", "add_assign": "add", "sub_assign": "sub", "negate": "neg",
@@ -670,6 +841,11 @@ LEAN_METHOD = {
     "mul_by_1": "mulBy1", "mul_by_01": "mulBy01", "mul_by_014": "mulBy014",
     "conjugate": "conjugate", "zero": "zero", "one": "one", "eq": "beq",
     "add_assign_mixed": "addMixed", "is_on_curve": "isOnCurve", "is_normalized": "isNormalized",
+    "sqrt": "sqrt", "legendre": "legendre", "sgn0": "sgn0", "cmp": "cmp", "bitxor": "xor",
+    "negate_if": "negateIf", "get_point_from_x": "getPointFromX", "mul_bits": "mulBits", "mul": "mul",
+    "is_in_correct_subgroup_assuming_on_curve": "isInCorrectSubgroupAssumingOnCurve",
+    "in_subgroup": "inSubgroup", "sub_assign_mixed": "subMixed", "clear_h": "clearH",
+    "osswu_map": "osswuMap", "map_to_curve": "mapToCurve", "map2_to_curve": "map2ToCurve",
 }
 
 # builtin operations of field-like types: method -> (kind, format)
@@ -683,6 +859,9 @@ BUILTIN = {
     "frobenius_map": ("mut", "FieldOps.frob {0} {1}"),
     "inverse": ("opt", "FieldOps.inv {0}"),
     "is_zero": ("bool", "FieldOps.isZero {0}"),
+    # `SqrtField` of the coefficient field (for `Fq` derive-generated, not in /repo; for `Fq2` see fq2.rs)
+    "sqrt": ("opt", "SqrtOps.sqrt {0}"),
+    "legendre": ("Legendre", "SqrtOps.legendre {0}"),
 }
 BUILTIN_ARGTYPES = {"add_assign": ["same"], "sub_assign": ["same"], "mul_assign": ["same"],
                     "frobenius_map": ["Nat"]}
@@ -697,9 +876,19 @@ TABLES = {
     "FROBENIUS_COEFF_FQ12_C1": ["PP.Fq12.frobCoeffC1", "Fq2", None],
 }
 FQ_RS = "src/bls12_381/fq.rs"
+REPR_LIMBS = 4   # `FrRepr([u64; 4])` (derive-generated): every scalar `Repr` in the curve code is an FrRepr
 CONSTS = {
     "BLS_X": ("(UInt64.ofNat Gen.BLS_X)", "U64"),
     "BLS_X_IS_NEGATIVE": ("Gen.BLS_X_IS_NEGATIVE", "Bool"),
+    "NEGATIVE_ONE": ("(Fq.ofMont Gen.NEGATIVE_ONE)", "Fq"),
+}
+# free functions that are extracted elsewhere (addition chains: PP/Gen/Chains.lean, run by the model's
+# chain interpreter): Rust `chain(&mut out, &in)` is `let out := <lean> in`; name -> (Lean, type of in/out)
+EXTERN_FNS = {
+    "chain_pm3div4": ("PP.chainPm3div4", "Fq"),
+    "chain_p2m9div16": ("PP.chainP2m9div16", "Fq2"),
+    "chain_z": ("PP.chainZ", "Jac"),
+    "chain_h2_eff": ("PP.chainH2Eff", "Jac"),
 }
 
 LEAN_RESERVED = {
@@ -718,6 +907,8 @@ def lname(n):
 
 
 class FnInfo:
+    generic = False                 # declared types mention the coefficient field `F`
+
     def __init__(self, lean, recv, params, mutparams, ret, partial, extern):
         self.lean = lean            # full Lean name, e.g. A.Fq2.mul
         self.recv = recv            # None | ('mut'|'ref', type)
@@ -778,7 +969,11 @@ class Line:
 # ================================================================ translation of one function
 
 class Translator:
-    def __init__(self, registry, src, what, tymap, self_ty, extern_calls):
+    def __init__(self, registry, src, what, tymap, self_ty, extern_calls, consts=None, tables=None):
+        self.consts = consts or {}           # per-file constants: name -> (Lean text, type)
+        self.tables = tables or {}           # per-file tables: name -> (Lean text, element type, length)
+        self.recording = None                # set of outer variables mutated (analysis pass of loops / ifs)
+        self.ret_stack = []                  # `return` inside a loop closure
         self.reg = registry
         self.src = src
         self.what = what
@@ -816,6 +1011,8 @@ class Translator:
             return ("Tup", tuple(self.conv_ty(x) for x in t[1]))
         if k == "app" and t[1] == "Option":
             return ("Opt", self.conv_ty(t[2]))
+        if k == "app" and t[1] == "BitIterator":
+            return "Bits"
         if k == "array":
             key = "[%s; %d]" % (t[1][1] if t[1][0] == "name" else "?", t[2])
             if key in self.tymap:
@@ -876,7 +1073,11 @@ class Translator:
             self.fail("unknown variable `%s`" % root, node)
         t, lvl = env.vars[root]
         if lvl < env.barrier:
-            self.fail("mutation of `%s`, which is declared outside the enclosing value block" % root, node)
+            if self.recording is not None:
+                if root not in self.recording:
+                    self.recording.append(root)
+            else:
+                self.fail("mutation of `%s`, which is declared outside the enclosing value block" % root, node)
         tt = t
         for f in fields:
             if isinstance(tt, tuple) and tt[0] == "Tup":
@@ -918,10 +1119,14 @@ class Translator:
             return str(e[1]), "Nat"
         if k == "path":
             segs = e[1]
+            if len(segs) == 2 and tuple(segs) in ENUMS:
+                return ENUMS[tuple(segs)]
             if len(segs) == 1:
                 n = segs[0]
                 if n in env.vars:
                     return lname(n), env.vars[n][0]
+                if n in self.consts:
+                    return self.consts[n]
                 if n in CONSTS:
                     return CONSTS[n]
                 if n == "None" and want is not None and want[0] == "Opt":
@@ -976,13 +1181,31 @@ class Translator:
                 parts = [self.expr(x, env, want[1])[0] for x in e[1]]
                 return "⟨" + ", ".join(parts) + "⟩", want
             self.fail("array literal in an unsupported position", e)
+        if k == "if":
+            # `if c { a } else { b }` used inline as a value
+            c, th, el = e[1], e[2], e[3]
+            if th.stmts or th.tail is None or el is None or el[0] != "block" or el[1].stmts or el[1].tail is None:
+                self.fail("`if` inside an expression must have the form `if c { a } else { b }`", e)
+            cs, _ = self.cond(c, env)
+            a, ta = self.expr(th.tail, env, want)
+            b, _ = self.expr(el[1].tail, env, ta)
+            return "if %s then %s else %s" % (cs, a, b), ta
         if k == "bin":
             op = e[1]
             if op == "%":
                 a, _ = self.arg(e[2], env, "Nat")
                 b, _ = self.arg(e[3], env, "Nat")
                 return "%s %% %s" % (a, b), "Nat"
-            if op in ("==", "!=", "&&", "||"):
+            if op == "^":
+                a, ta = self.arg(e[2], env)
+                b, _ = self.arg(e[3], env, ta)
+                if ta == "Bool":
+                    return "%s ^^ %s" % (a, b), "Bool"
+                fi = self.reg.get((head(ta), "bitxor"))
+                if fi is None:
+                    self.fail("operator ^ on values of type %s (no translated `BitXor` impl)" % lean_ty(ta), e)
+                return "%s %s %s" % (fi.lean, a, b), fi.ret
+            if op in ("==", "!=", "&&", "||", "<"):
                 s, kind = self.cond(e, env)
                 return (s if kind == "bool" else "decide (%s)" % s), "Bool"
             if op in (">>", "<<"):
@@ -1008,6 +1231,19 @@ class Translator:
             inner = want[1] if (want is not None and want[0] == "Opt") else None
             s, t = self.arg(args[0], env, inner)
             return "some %s" % s, ("Opt", t)
+        if key == "BitIterator::new" and len(args) == 1:
+            # BitIterator of the ff crate (not a target) over the limbs of a scalar `Repr`
+            s, _ = self.arg(args[0], env, "Repr")
+            return "bitsMSB (limbsOf %d %s)" % (REPR_LIMBS, s), "Bits"
+        if ("static", key) in self.reg or ("fn", key) in self.reg:
+            fi = self.reg.get(("static", key)) or self.reg[("fn", key)]
+            if fi.mutparams or any(m for _, _, m in fi.params):
+                self.fail("function with &mut parameters used as a value", e)
+            ar = self.call_args(fi, args, env, e)
+            f = self.last_subst
+            pre = self.extern_args(fi, f)
+            t = subst(fi.ret, f)
+            return " ".join(x for x in [fi.lean] + pre + ar if x), (("Opt", t) if fi.partial else t)
         if len(segs) == 2 and segs[1] in ("zero", "one") and not args:
             if segs[0] not in self.tymap:
                 self.fail("unknown type `%s`" % segs[0], e)
@@ -1022,20 +1258,52 @@ class Translator:
 
     def lookup_method(self, t, m, node):
         fi = self.reg.get((head(t), m))
+        if fi is None and t in FIELD_LIKE + TOWER:
+            fi = self.reg.get(("Signum0", m))     # default method of the trait `Signum0: Field`
         if fi is None:
             self.fail("call of method `%s` on a value of type %s, which is not a builtin and has not "
                       "been translated before" % (m, lean_ty(t)), node)
         return fi
 
-    def call_args(self, fi, args, env, node):
+    def call_args(self, fi, args, env, node, f=None):
+        """argument texts; f = instantiation of the callee's generic field F (from the receiver), or
+        None: taken from the first argument that determines it.  The result is left in last_subst."""
         if len(args) != len(fi.params):
             self.fail("wrong number of arguments", node)
         out = []
         for a, (_, pt, ismut) in zip(args, fi.params):
             if ismut:
                 self.fail("&mut argument in a value position", node)
-            out.append(self.arg(a, env, pt)[0])
+            if fi.generic and not f and subst(pt, "Fq") != pt:
+                s_, t_ = self.arg(a, env)
+                f = unify(pt, t_)
+                if not f:
+                    self.fail("argument of type %s where %s is expected" % (lean_ty(t_), lean_ty(pt)), a)
+                out.append(s_)
+            else:
+                out.append(self.arg(a, env, subst(pt, f))[0])
+        self.last_subst = f
         return out
+
+    def extern_args(self, fi, f):
+        """associated constants needed by a callee become associated constants of the caller"""
+        pre = []
+        for ln, t in fi.extern:
+            t = subst(t, f)
+            if (ln, t) not in self.used_extern:
+                if any(l == ln for l, _ in self.used_extern):
+                    self.fail("internal: two different associated constants named %s" % ln, (0, 0))
+                self.used_extern.append((ln, t))
+            pre.append(ln)
+        return pre
+
+    def recv_subst(self, fi, rt, node):
+        if not fi.generic:
+            return None
+        f = unify(fi.recv[1], rt)
+        if f is None:
+            self.fail("receiver of type %s where %s is expected" % (lean_ty(rt), lean_ty(fi.recv[1])), node)
+        return f or None
 
     def mcall_value(self, e, env, want):
         """method call used for its VALUE (must not mutate anything)"""
@@ -1045,6 +1313,14 @@ class Translator:
         if m == "map":
             self.fail("`.map(..)` is only supported as the value of a function or block", e)
         rs, rt = self.arg(recv, env)
+        if m == "into" and rt == "Repr" and not args:
+            # `by.into()` of a scalar argument `by: S` with `S: Into<Repr>`: the argument is taken
+            # after this conversion
+            return rs, "Repr"
+        if m == "cmp" and rt == "Fq" and len(args) == 1:
+            # `Ord for Fq` (derive-generated, not in /repo): compares `into_repr()`, the canonical integers
+            b, _ = self.arg(args[0], env, "Fq")
+            return "compare %s.v %s.v" % (rs, b), "Ordering"
         if m == "pow" and rt in FIELD_LIKE + TOWER:
             # Field::pow(&[limbs]) -- generic MSB-first square-and-multiply of the ff crate (not a target)
             if len(args) != 1:
@@ -1054,7 +1330,14 @@ class Translator:
                 a = a[1]
             if a[0] != "array":
                 self.fail("pow exponent must be an array literal", e)
-            limbs = [self.expr(x, env, "U64")[0] + ".toNat" for x in a[1]]
+            limbs = []
+            for x in a[1]:
+                if x[0] == "num":
+                    if x[1] >= 2 ** 64:
+                        self.fail("limb literal does not fit in u64", x)
+                    limbs.append(self.src[x[-1][0]:x[-1][1]].replace("_", "").replace("u64", ""))
+                else:
+                    limbs.append(self.expr(x, env, "U64")[0] + ".toNat")
             if rt in TOWER:
                 # the generic loop of the ff crate, instantiated with the GENERATED operations of rt
                 for m_ in ("mul_assign", "one", "square", "double", "inverse", "is_zero", "frobenius_map"):
@@ -1062,31 +1345,47 @@ class Translator:
                 return "@powLimbs %s A.%s.instMul A.%s.instOne A.%s.instFieldOps %s [%s]" % (
                     rt, rt, rt, rt, rs, ", ".join(limbs)), rt
             return "powLimbs %s [%s]" % (rs, ", ".join(limbs)), rt
-        if rt in FIELD_LIKE:
-            if m not in BUILTIN:
-                self.fail("unknown field method `%s`" % m, e)
+        if rt in FIELD_LIKE and m in BUILTIN:
             kind, fmt = BUILTIN[m]
             if kind == "mut":
                 self.fail("mutating method `%s` used as a value" % m, e)
             if args:
                 self.fail("unexpected arguments", e)
-            return fmt.format(rs), (("Opt", rt) if kind == "opt" else "Bool")
+            return fmt.format(rs), (("Opt", rt) if kind == "opt" else "Bool" if kind == "bool" else kind)
         fi = self.lookup_method(rt, m, e)
         if fi.recv is None or fi.recv[0] == "mut" or fi.mutparams:
             self.fail("mutating method `%s` used as a value" % m, e)
-        if fi.extern:
-            self.fail("call of `%s`, which needs associated constants" % m, e)
-        ar = self.call_args(fi, args, env, e)
-        t = ("Opt", fi.ret) if fi.partial else fi.ret
-        return " ".join([fi.lean, rs] + ar), t
+        f = self.recv_subst(fi, rt, e)
+        ar = self.call_args(fi, args, env, e, f)
+        pre = self.extern_args(fi, f)
+        t = subst(fi.ret, f)
+        t = ("Opt", t) if fi.partial else t
+        return " ".join(x for x in [fi.lean] + pre + [rs] + ar if x), t
 
     # ---- conditions.  -> (text, 'bool' | 'prop')
     def cond(self, e, env):
         k = e[0]
+        if k == "bin" and e[1] == "==" and e[2][0] == "bin" and e[2][1] == "&":
+            # `x.into_repr().0[0] & 1 == 1`: the lowest bit of the canonical representative of x : Fq
+            l, r = e[2][2], e[2][3]
+            ok = (e[3][0] == "num" and e[3][1] == 1 and r[0] == "num" and r[1] == 1 and l[0] == "index"
+                  and l[2] is not None and l[2][0] == "num" and l[2][1] == 0 and l[1][0] == "field" and l[1][2] == "0"
+                  and l[1][1][0] == "mcall" and l[1][1][2] == "into_repr" and not l[1][1][3])
+            if not ok:
+                self.fail("unsupported use of `&` (only `x.into_repr().0[0] & 1 == 1`)", e)
+            xs, xt = self.arg(l[1][1][1], env, "Fq")
+            return "%s.v %% 2 = 1" % xs, "prop"
+        if k == "bin" and e[1] == "<":
+            a, ta = self.arg(e[2], env)
+            b, _ = self.arg(e[3], env, ta)
+            if ta != "F":
+                self.fail("comparison `<` of values of type %s" % lean_ty(ta), e)
+            # `PartialOrd::lt` = `Ord::cmp(..) == Less` of the coefficient field
+            return "SqrtOps.lt %s %s" % (a, b), "bool"
         if k == "bin" and e[1] in ("==", "!="):
             a, ta = self.expr(e[2], env)
             b, tb = self.expr(e[3], env, ta)
-            if not (ta in FIELD_LIKE + TOWER):
+            if not (ta in FIELD_LIKE + TOWER + ("Sgn0",)):
                 self.fail("comparison of values of type %s" % lean_ty(ta), e)
             return "%s %s %s" % (self.paren(a) if " " in a else a, "=" if e[1] == "==" else "≠",
                                  self.paren(b) if " " in b else b), "prop"
@@ -1108,6 +1407,9 @@ class Translator:
             if ka == "bool":
                 return "!%s" % self.paren(a), "bool"
             return "¬ %s" % self.paren(a), "prop"
+        if k == "bin" and e[1] == "^":
+            s, t = self.expr(e, env, "Bool")
+            return "(%s)" % s, "bool"
         s, t = self.expr(e, env, "Bool")
         return s, "bool"
 
@@ -1151,7 +1453,11 @@ class Translator:
         if kind == "return":
             if rest or tail is not None:
                 self.fail("statements after `return`", s)
+            if self.ret_stack:
+                return self.ret_stack[-1](env, s[1], ind, cmt)
             return self.ret_k(env, s[1], ind, cmt)
+        if kind == "for":
+            return self.for_stmt(s, rest, tail, env, k, ind)
         if kind == "let":
             return self.let_stmt(s, rest, tail, env, k, ind, cmt)
         if kind == "assign":
@@ -1170,6 +1476,15 @@ class Translator:
             return [line] + self.seq(rest, tail, env, k, ind)
         if kind == "expr":
             e = s[1]
+            if e[0] == "debug_assert":
+                # compiled out in release builds (the semantics translated here)
+                return [Line(ind, "", cmt + "   (release build: compiled out)")] + self.seq(rest, tail, env, k, ind)
+            if e[0] == "panic":
+                if rest or tail is not None:
+                    self.fail("statements after `panic!`", s)
+                if not self.info.partial or self.ret_stack:
+                    self.fail("internal: panic! in a function not marked partial", s)
+                return [Line(ind, "none", cmt)]
             if e[0] in ("if", "match", "block"):
                 return self.structured(e, rest, tail, env, k, ind, False)
             if e[0] == "mcall":
@@ -1186,9 +1501,11 @@ class Translator:
         if p is None or p[0] not in env.vars:
             return False
         t = self.place_type(p[0], p[1], env, e)
-        if t in FIELD_LIKE:
-            return e[2] in BUILTIN and BUILTIN[e[2]][0] == "mut"
+        if t in FIELD_LIKE and e[2] in BUILTIN:
+            return BUILTIN[e[2]][0] == "mut"
         fi = self.reg.get((head(t), e[2]))
+        if fi is None and t in FIELD_LIKE + TOWER:
+            fi = self.reg.get(("Signum0", e[2]))
         return fi is not None and fi.recv is not None and fi.recv[0] == "mut"
 
     def mcall_stmt(self, e, env):
@@ -1198,9 +1515,9 @@ class Translator:
             self.fail("receiver of a method-call statement is not a place", e)
         rt = self.place_type(p[0], p[1], env, e)
         rs = self.place_text(p[0], p[1], env, e)
-        if rt in FIELD_LIKE:
-            if m not in BUILTIN or BUILTIN[m][0] != "mut":
-                self.fail("statement calls non-mutating or unknown field method `%s`" % m, e)
+        if rt in FIELD_LIKE and m in BUILTIN:
+            if BUILTIN[m][0] != "mut":
+                self.fail("statement calls non-mutating field method `%s`" % m, e)
             wants = BUILTIN_ARGTYPES.get(m, [])
             if len(args) != len(wants):
                 self.fail("wrong number of arguments", e)
@@ -1217,10 +1534,12 @@ class Translator:
         fi = self.lookup_method(rt, m, e)
         if fi.recv is None or fi.recv[0] != "mut":
             self.fail("statement calls non-mutating method `%s`" % m, e)
-        if fi.mutparams != ["self"] or fi.ret != "Unit" or fi.partial or fi.extern:
+        if fi.mutparams != ["self"] or fi.ret != "Unit" or fi.partial:
             self.fail("unsupported kind of method in statement position `%s`" % m, e)
-        ar = self.call_args(fi, args, env, e)
-        return self.set_place(p[0], p[1], " ".join([fi.lean, rs] + ar), env, e)
+        f = self.recv_subst(fi, rt, e)
+        ar = self.call_args(fi, args, env, e, f)
+        pre = self.extern_args(fi, f)
+        return self.set_place(p[0], p[1], " ".join(x for x in [fi.lean] + pre + [rs] + ar if x), env, e)
 
     def call_stmt(self, e, env):
         segs, args = e[1], e[2]
@@ -1242,6 +1561,20 @@ class Translator:
                 self.set_place(q[0], [], "", env, e)
                 return "let (%s, %s) := (%s, %s)" % (ps, qs, qs, ps)
             self.fail("unsupported swap", e)
+        if len(segs) == 1 and segs[0] in EXTERN_FNS:
+            ln, ty = EXTERN_FNS[segs[0]]
+            if len(args) != 2:
+                self.fail("chain call needs (out, in)", e)
+            # first argument: `&mut v`, or a variable that already is a `&mut` reference (`self`)
+            o = args[0]
+            p = self.place(o)
+            if p is None or p[1] or not (o[0] == "refmut" or (o[0] == "path" and p[0] in self.info.mutparams)):
+                self.fail("first argument of a chain must be `&mut v` or a `&mut` parameter", e)
+            ot = self.place_type(p[0], [], env, e)
+            ins, it = self.arg(args[1], env, ot)
+            if not (ot == ty or (ty == "Jac" and isinstance(ot, tuple) and ot[0] == "Jac")):
+                self.fail("chain `%s` applied to a value of type %s" % (segs[0], lean_ty(ot)), e)
+            return self.set_place(p[0], [], "%s %s" % (ln, ins), env, e)
         if len(segs) == 1 and ("fn", segs[0]) in self.reg:
             fi = self.reg[("fn", segs[0])]
             if len(args) != len(fi.params):
@@ -1270,12 +1603,52 @@ class Translator:
         want = self.conv_ty(ty) if ty is not None else None
         if pat[0] == "pvar":
             lhs = lname(pat[1])
-        else:
+        elif pat[0] == "ptuple":
             lhs = "(" + ", ".join(lname(n) for n in pat[1]) + ")"
+        elif pat[0] == "parray":
+            lhs = "⟨" + ", ".join(lname(n) for n in pat[1]) + "⟩"
+        else:
+            lhs = "⟨" + ", ".join(lname(n) for n in pat[2]) + "⟩"
+        proj = []
+        if pat[0] in ("parray", "pstruct") and not self.info.generic:
+            # In a function over the CONCRETE fields a destructuring `let` is translated by projections
+            # (`let pat1 := e` and one `let` per variable) instead of a Lean pattern: a `match` on a concrete
+            # value makes the kernel evaluate it when the definition is unfolded in a proof.
+            self.npat = getattr(self, "npat", 0) + 1
+            lhs = "pat%d" % self.npat
+            if lhs in env.vars:
+                self.fail("internal: name clash %s" % lhs, s)
+            names = pat[2] if pat[0] == "pstruct" else pat[1]
+            for i, n in enumerate(names):
+                if n == "_":
+                    continue
+                if pat[0] == "ptuple":
+                    sel = "".join([".2"] * i) + (".1" if i < len(names) - 1 else "")
+                    what_ = "component .%d of the tuple" % i
+                elif pat[0] == "parray":
+                    sel = ".%d" % (i + 1)
+                    what_ = "element [%d] of the array" % i
+                else:
+                    sel = "." + n
+                    what_ = "field %s" % n
+                proj.append(Line(ind, "let %s := %s%s" % (lname(n), lhs, sel), "  " + what_))
 
         def bind(t):
             if pat[0] == "pvar":
                 self.declare(env, pat[1], t, s)
+            elif pat[0] == "parray":
+                # `let [a, b, ..] = <[F; 7]>`: the model type of `[F; 7]` is the structure OsswuHelp F
+                if not (isinstance(t, tuple) and t[0] == "Help" and len(pat[1]) == 7):
+                    self.fail("array pattern does not match the type %s" % lean_ty(t), s)
+                for n in pat[1]:
+                    if n != "_":
+                        self.declare(env, n, t[1], s)
+            elif pat[0] == "pstruct":
+                fs = fields_of(t)
+                if pat[1] not in self.tymap or self.tymap[pat[1]] != t or fs is None or [f for f, _ in fs] != pat[2]:
+                    self.fail("struct pattern does not match the type %s" % lean_ty(t), s)
+                for n, ft in fs:
+                    self.declare(env, n, ft, s)
             else:
                 if not (isinstance(t, tuple) and t[0] == "Tup" and len(t[1]) == len(pat[1])):
                     self.fail("tuple pattern does not match the type %s" % lean_ty(t), s)
@@ -1293,7 +1666,7 @@ class Translator:
                    Line(ind, "| none => none", "unwrap() panics"),
                    Line(ind, "| some %s =>" % lhs)]
             bind(ot[1])
-            return out + self.seq(rest, tail, env, k, ind + 1)
+            return out + [Line(l.ind + 1, l.code, l.cmt) for l in proj] + self.seq(rest, tail, env, k, ind + 1)
         if e[0] in ("block", "if", "match"):
             res = {}
 
@@ -1307,7 +1680,18 @@ class Translator:
             inner = self.structured(e, [], None, env.nested_value(), kval, ind + 1, True, value=True)
             bind(res["t"])
             head_cmt = "let %s = %s" % (self.text(pat[-1]), first)
-            return [Line(ind, "let %s :=" % lhs, head_cmt)] + inner + self.seq(rest, tail, env, k, ind)
+            return [Line(ind, "let %s :=" % lhs, head_cmt)] + inner + proj + self.seq(rest, tail, env, k, ind)
+        if e[0] in ("call", "mcall") and self.callee_partial(e, env):
+            # the callee may panic: so does this function
+            if not self.info.partial:
+                self.fail("call of a function that may panic in a function not marked partial", s)
+            os_, ot = self.expr(e, env)
+            out = [Line(ind, "match %s with" % os_, cmt),
+                   Line(ind, "| none => none", "(the callee panics)"),
+                   Line(ind, "| some %s =>" % lhs)]
+            self.expect(ot[1], want, e)
+            bind(ot[1])
+            return out + [Line(l.ind + 1, l.code, l.cmt) for l in proj] + self.seq(rest, tail, env, k, ind + 1)
         v, t = self.expr(e, env, want)
         if e[0] == "struct":
             # `({ .. } : T)` -> typed let
@@ -1318,7 +1702,14 @@ class Translator:
         else:
             line = "let %s := %s" % (lhs, v)
         bind(t)
-        return [Line(ind, line, cmt)] + self.seq(rest, tail, env, k, ind)
+        return [Line(ind, line, cmt)] + proj + self.seq(rest, tail, env, k, ind)
+
+    def callee_partial(self, e, env):
+        if e[0] == "call":
+            key = "::".join(e[1])
+            fi = self.reg.get(("static", key)) or self.reg.get(("fn", key))
+            return fi is not None and fi.partial
+        return False
 
     def diverges(self, b):
         return bool(b.stmts) and b.stmts[-1][0] == "return" and b.tail is None
@@ -1362,8 +1753,7 @@ class Translator:
             elif not rest and (tail is None or self.simple_tail(tail)):
                 kk = fallthrough  # only the value of the enclosing block follows: copied into both branches
             else:
-                self.fail("`if` statement followed by further statements (supported: early returns, a final "
-                          "`if`, an `if` followed only by the value of its block)", (e[-1][0], c[-1][1]))
+                return self.if_mid(e, rest, tail, env, k, ind)
             out = [Line(ind, "if %s then" % cs, ccmt)]
             out += self.seq(th.stmts, th.tail, env.nested_flat(more), kk, ind + 1)
             if el is None:
@@ -1384,6 +1774,23 @@ class Translator:
                 self.fail("`match` followed by further statements", (e[-1][0], e[1][-1][1]))
             scrut, arms = e[1], e[2]
             ss, st = self.expr(scrut, env)
+            if st in ENUM_SIZE:
+                # match on an enum: one arm per constructor, in the order of the source
+                out = [Line(ind, "match %s with" % ss, "match %s {" % self.text(scrut[-1]))]
+                seen = []
+                for pat, body in arms:
+                    if pat[0] != "ppath" or tuple(pat[1]) not in ENUMS or ENUMS[tuple(pat[1])][1] != st:
+                        self.fail("unsupported pattern in a match on %s" % st, pat)
+                    seen.append(tuple(pat[1]))
+                    out.append(Line(ind, "| %s =>" % ENUMS[tuple(pat[1])][0], self.text(pat[-1]) + " =>"))
+                    envb = env.nested_flat(False)
+                    if body[0] == "block":
+                        out += self.seq(body[1].stmts, body[1].tail, envb, k, ind + 1)
+                    else:
+                        out += self.seq([], body, envb, k, ind + 1)
+                if len(set(seen)) != len(seen) or len(seen) != ENUM_SIZE[st]:
+                    self.fail("match on %s must have one arm per constructor" % st, e)
+                return out
             if not (isinstance(st, tuple) and st[0] == "Opt"):
                 self.fail("match on a value that is not an Option", e)
             some = [a for a in arms if a[0][0] == "psome"]
@@ -1407,7 +1814,188 @@ class Translator:
         self.fail("internal: structured", e)
 
     def simple_tail(self, t):
+        if t[0] == "call" and t[1] == ["Some"] and len(t[2]) == 1:
+            return self.simple_tail(t[2][0])
         return t[0] in ("path", "field", "tuple", "array", "deref")
+
+    # ---- constructs whose effect is a new value of the outer variables they mutate
+    def analyse(self, fn, env):
+        """run the translation fn(env') once with mutations of outer variables RECORDED instead of
+        rejected; -> names of the mutated outer variables, in order of declaration"""
+        saved, saved_ext = self.recording, list(self.used_extern)
+        self.recording = []
+        try:
+            fn(env.nested_value())
+            rec = self.recording
+        finally:
+            self.recording = saved
+            self.used_extern = saved_ext
+        order = list(env.vars)
+        return sorted(set(rec), key=order.index)
+
+    def rebound(self, env, names):
+        """scope of a nested Lean term in which the outer variables `names` are bound again (lambda
+        parameters / the branches of a value-`if`), so that they may be mutated"""
+        e = env.nested_value()
+        for n in names:
+            e.vars[n] = (env.vars[n][0], e.level)
+        return e
+
+    def state_text(self, names):
+        return lname(names[0]) if len(names) == 1 else "(" + ", ".join(lname(n) for n in names) + ")"
+
+    def if_mid(self, e, rest, tail, env, k, ind):
+        """`if c { .. } [else { .. }]` followed by further statements: the variables assigned in the
+        branches get their new values from a value-`if`:  let (a, b) := if c then ..; (a, b) else ..; (a, b)"""
+        c, th, el = e[1], e[2], e[3]
+        if el is not None and el[0] != "block":
+            self.fail("`else if` chain followed by further statements", e)
+        cs, _ = self.cond(c, env)
+
+        def kdrop(env2, t, ind2, cm):
+            if t is not None:
+                if self.is_mutating_call(t, env2):
+                    return self.seq([("expr", t, t[-1])], None, env2, kdrop, ind2)
+                self.fail("the value of a block in statement position is dropped", t)
+            return []
+
+        def both(envb):
+            self.seq(th.stmts, th.tail, envb.copy(), kdrop, 0)
+            if el is not None:
+                self.seq(el[1].stmts, el[1].tail, envb.copy(), kdrop, 0)
+        if self.contains_return(th) or (el is not None and self.contains_return(el[1])):
+            self.fail("`return` inside an `if` that is followed by further statements", e)
+        muts = self.analyse(both, env)
+        if not muts:
+            self.fail("`if` statement without effect", e)
+        st = self.state_text(muts)
+
+        def kstate(env2, t, ind2, cm):
+            return kdrop(env2, t, ind2, cm) + [Line(ind2, st)]
+        out = [Line(ind, "let %s :=" % st, ""),
+               Line(ind + 1, "if %s then" % cs, "if %s {" % self.text(c[-1]))]
+        out += self.seq(th.stmts, th.tail, self.rebound(env, muts), kstate, ind + 2)
+        if el is None:
+            out += [Line(ind + 1, "else", "}"), Line(ind + 2, st)]
+        else:
+            out += [Line(ind + 1, "else", "} else {")]
+            out += self.seq(el[1].stmts, el[1].tail, self.rebound(env, muts), kstate, ind + 2)
+        for n in muts:
+            self.set_place(n, [], "", env, e)      # the outer variables must be assignable here
+        return out + self.seq(rest, tail, env, k, ind)
+
+    def contains_return(self, b):
+        def in_expr(x):
+            if isinstance(x, Block):
+                return any(in_stmt(s_) for s_ in x.stmts) or (x.tail is not None and in_expr(x.tail))
+            if isinstance(x, tuple):
+                return any(in_expr(y) for y in x if isinstance(y, (tuple, Block, list)))
+            if isinstance(x, list):
+                return any(in_expr(y) for y in x)
+            return False
+
+        def in_stmt(s_):
+            if s_[0] == "return":
+                return True
+            return in_expr(s_)
+        return in_expr(b)
+
+    def iter_expr(self, it, env):
+        """the Lean list a `for` runs over -> (text, element type)"""
+        x = it
+        while x[0] in ("ref", "deref"):
+            x = x[1]
+        if x[0] == "slice" and x[2] is None and x[3] is None and x[1][0] == "path" and len(x[1][1]) == 1 \
+                and x[1][1][0] in self.tables:
+            txt, elt, n = self.tables[x[1][1][0]]
+            return txt, elt
+        s_, t = self.expr(it, env)
+        if t == "Bits":
+            return s_, "Bool"
+        self.fail("`for` over something that is not a BitIterator or a constant table", it)
+
+    def for_stmt(self, s, rest, tail, env, k, ind):
+        """for x in L { body }             ==>  let st := List.foldl (fun st x => body; st) st L
+           (st = the outer variables assigned in the body);
+           for x in L { ..; if c { ..; return V; } }  (body without other effect)
+                                           ==>  match List.findSome? (fun x => ..; if c then ..; some V else none) L with
+                                                | some ret => ret | none => (what follows the loop)"""
+        pat, it, body = s[1], s[2], s[3]
+        var = pat[1]
+        ls, elt = self.iter_expr(it, env)
+        lsa = self.paren(ls)
+        hdr = "for %s in %s {" % (var, self.text(it[-1]))
+
+        def kdrop(env2, t, ind2, cm):
+            if t is not None:
+                if self.is_mutating_call(t, env2):
+                    return self.seq([("expr", t, t[-1])], None, env2, kdrop, ind2)
+                self.fail("the value of a loop body is dropped", t)
+            return []
+
+        def declare_var(envb):
+            envb.vars[var] = (elt, envb.level)
+            return envb
+
+        early = self.contains_return(body)
+        if early:
+            if body.tail is not None and body.tail[0] == "if":
+                body = Block(body.stmts + [("expr", body.tail, body.tail[-1])], None, body.span)
+            last = body.stmts[-1] if body.stmts else None
+            ok = (body.tail is None and last is not None and last[0] == "expr" and last[1][0] == "if"
+                  and last[1][3] is None and self.diverges(last[1][2])
+                  and not any(self.contains_return(Block([x], None, x[-1])) for x in body.stmts[:-1])
+                  and not self.contains_return(Block(last[1][2].stmts[:-1], None, last[-1])))
+            if not ok:
+                self.fail("`return` inside a loop is only supported as `for .. { ..; if c { ..; return V; } }`", body)
+
+        def run_body(envb, kk):
+            return self.seq(body.stmts, body.tail, declare_var(envb), kk, ind + 2)
+
+        if early:
+            self.ret_stack.append(lambda env2, t, ind2, cm: [Line(ind2, "none", "")])
+            try:
+                muts = self.analyse(lambda envb: run_body(envb, kdrop), env)
+            finally:
+                self.ret_stack.pop()
+            if muts:
+                self.fail("loop with `return` that also assigns outer variables (%s)" % ", ".join(muts), body)
+            if self.ret_stack:
+                self.fail("nested loops with `return`", body)
+            fi = self.info
+            if fi.mutparams or fi.ret == "Unit":
+                self.fail("`return` inside a loop of a function with &mut parameters", body)
+
+            def kret(env2, t, ind2, cm):
+                v, _ = self.expr(t, env2, fi.ret)
+                return [Line(ind2, "some %s" % self.paren(v), cm or self.text(t[-1]))]
+
+            def knext(env2, t, ind2, cm):
+                return kdrop(env2, t, ind2, cm) + [Line(ind2, "none", "(next iteration)")]
+            self.ret_stack.append(kret)
+            try:
+                inner = run_body(env.nested_value(), knext)
+            finally:
+                self.ret_stack.pop()
+            out = [Line(ind, "match List.findSome? (fun %s =>" % lname(var), hdr)] + inner
+            out += [Line(ind + 1, ") %s with" % lsa, "}"),
+                    Line(ind, "| some ret => %s" % ("some ret" if fi.partial else "ret"), "(the `return` inside the loop)"),
+                    Line(ind, "| none =>", "")]
+            return out + self.seq(rest, tail, env, k, ind + 1)
+
+        muts = self.analyse(lambda envb: run_body(envb, kdrop), env)
+        if not muts:
+            self.fail("loop without effect", body)
+        st = self.state_text(muts)
+
+        def kstate(env2, t, ind2, cm):
+            return kdrop(env2, t, ind2, cm) + [Line(ind2, st)]
+        inner = run_body(self.rebound(env, muts), kstate)
+        for n in muts:
+            self.set_place(n, [], "", env, s)
+        out = [Line(ind, "let %s := List.foldl (fun %s %s =>" % (st, st, lname(var)), hdr)] + inner
+        out += [Line(ind + 1, ") %s %s" % (st, lsa), "}")]
+        return out + self.seq(rest, tail, env, k, ind)
 
     def option_map(self, e, env, k, ind):
         """value `o.map(|t| body)`  ==>  match o with | none => none | some t => some body"""
@@ -1460,15 +2048,20 @@ class Translator:
             v = "some %s" % self.paren(v)
         return [Line(ind, v, cmt)]
 
-    def run(self, fn_ast, lean_name, nested_ok):
+    def run(self, fn_ast, lean_name, nested_ok, generic=False, force_partial=False, implicit="", extern_order=None):
         name, generics, params, ret, body = fn_ast
         self.body = body
         self.nested_ok = nested_ok
         for g, bound in generics:
-            if bound != "Field":
-                raise ExtractError("%s: unsupported generic bound %s" % (self.what, bound))
             self.tymap = dict(self.tymap)
-            self.tymap[g] = "F"
+            if bound == "Field":
+                self.tymap[g] = "F"
+            elif bound == "Into<<Self::ScalarasPrimeField>::Repr>":
+                self.tymap[g] = "Repr"         # a scalar argument, taken after `.into()`
+            elif bound == "AsRef<[u64]>":
+                self.tymap[g] = "Limbs"        # only inside `BitIterator<S>`
+            else:
+                raise ExtractError("%s: unsupported generic bound %s" % (self.what, bound))
         env = Env()
         recv = None
         plist, mutparams, lean_params = [], [], []
@@ -1486,11 +2079,17 @@ class Translator:
         rett = "Unit"
         if ret is not None:
             rett = self.conv_ty(ret)
-        partial = ".unwrap()" in self.src[body.span[0]:body.span[1]].replace(" ", "")
+        btxt = self.src[body.span[0]:body.span[1]].replace(" ", "")
+        partial = ".unwrap()" in btxt or "panic!(" in btxt or force_partial
         env.flat = set(mutparams)
         self.info = FnInfo("A." + lean_name, recv, plist, mutparams, rett, partial, [])
+        self.info.generic = generic
         lines = self.seq(body.stmts, body.tail, env, self.ret_k, 1)
         self.info.extern = list(self.used_extern)
+        if extern_order:
+            # trait methods as parameters: in the FIXED order of the target's table (not of first use, which
+            # an edit of the body could permute without changing the type of the definition)
+            self.info.extern.sort(key=lambda x: extern_order.index(x[0]))
         # result type
         rts = [env.vars[n][0] for n in mutparams]
         if rett != "Unit":
@@ -1501,7 +2100,7 @@ class Translator:
         if partial:
             rt = ("Opt", rt)
         sig = "".join(" (%s : %s)" % (n, lean_ty(t)) for n, t in self.info.extern + lean_params)
-        return "def %s%s : %s :=" % (lean_name, sig, lean_ty(rt)), lines
+        return "def %s%s%s : %s :=" % (lean_name, implicit, sig, lean_ty(rt)), lines
 
 
 # ================================================================ targets
@@ -1513,7 +2112,18 @@ EC = "src/bls12_381/ec/mod.rs"
 OSSWU = "src/bls12_381/osswu_map/mod.rs"
 MOD = "src/bls12_381/mod.rs"
 
-BASE_TYMAP = {"usize": "Nat", "u64": "U64", "bool": "Bool", "Fq": "Fq", "Fq2": "Fq2", "Fq6": "Fq6", "Fq12": "Fq12"}
+SIGNUM = "src/signum.rs"
+LIB = "src/lib.rs"
+G1_RS = "src/bls12_381/ec/g1.rs"
+G2_RS = "src/bls12_381/ec/g2.rs"
+OSSWU_G1 = "src/bls12_381/osswu_map/g1.rs"
+OSSWU_G2 = "src/bls12_381/osswu_map/g2.rs"
+COFACTOR = "src/bls12_381/cofactor.rs"
+MAP_TO_CURVE = "src/map_to_curve.rs"
+
+BASE_TYMAP = {"usize": "Nat", "u64": "U64", "bool": "Bool", "Fq": "Fq", "Fq2": "Fq2", "Fq6": "Fq6", "Fq12": "Fq12",
+              "Sgn0Result": "Sgn0", "Ordering": "Ordering", "ff::LegendreSymbol": "Legendre",
+              "G1": ("Jac", "Fq"), "G2": ("Jac", "Fq2"), "G1Affine": ("Aff", "Fq"), "G2Affine": ("Aff", "Fq2")}
 
 
 def tower_targets(rel, ty, inherent, field, extra=()):
@@ -1541,12 +2151,37 @@ def ec_target(impl_rx, fn, ns, self_ty, lean=None, **kw):
 IMPL_CA = r"impl\s+CurveAffine\s+for\s+\$affine\s*\{"
 IMPL_CP = r"impl\s+CurveProjective\s+for\s+\$projective\s*\{"
 IMPL_A = r"impl\s+\$affine\s*\{\s*fn\s+mul_bits"
+TRAIT_CP = r"pub\s+trait\s+CurveProjective\s*:[^{]*\{"
+
+IMPL_MTC = r"impl<PtT>\s+MapToCurve<PtT>\s+for\s+PtT\b[^{]*\{"
+# `map_to_curve` is generic over the traits `OSSWUMap + IsogenyMap + ClearH (+ CurveProjective)`: the trait
+# methods it calls become parameters of the generated definition.  `osswu_map` may panic (G2): Option-valued.
+ABSTRACT_MTC = dict(types=["Base", "PtT"], methods={
+    ("static", "PtT::osswu_map"): FnInfo(None, None, [("u", "Base", False)], [], "PtT", True,
+                                         [("osswu_map", ("Raw", "Base → Option PtT"))]),
+    ("PtT", "isogeny_map"): FnInfo(None, ("mut", "PtT"), [], ["self"], "Unit", False,
+                                   [("isogeny_map", ("Raw", "PtT → PtT"))]),
+    ("PtT", "clear_h"): FnInfo(None, ("mut", "PtT"), [], ["self"], "Unit", False, [("clear_h", ("Raw", "PtT → PtT"))]),
+    ("PtT", "add_assign"): FnInfo(None, ("mut", "PtT"), [("other", "PtT", False)], ["self"], "Unit", False,
+                                  [("add_assign", ("Raw", "PtT → PtT → PtT"))]),
+})
 
 TARGETS = (
     # ---- Fq2 (componentwise ones first: they are called by the others' callers)
     tower_targets(FQ2, "Fq2", ["mul_by_nonresidue", "norm"],
                   ["zero", "one", "is_zero", "square", "double", "negate", "add_assign", "sub_assign", "mul_assign",
                    "inverse", "frobenius_map"])
+    # ---- Signum0 / Ord / SqrtField of Fq and Fq2
+    + [
+        dict(file=FQ_RS, path=[r"impl\s+Signum0\s+for\s+Fq\s*\{"], fn="sgn0", ns="Fq", self_ty="Fq"),
+        dict(file=SIGNUM, path=[r"impl\s+BitXor\s+for\s+Sgn0Result\s*\{"], fn="bitxor", ns="Sgn0", self_ty="Sgn0"),
+        dict(file=SIGNUM, path=[r"pub\s+trait\s+Signum0\s*:\s*Field\s*\{"], fn="negate_if", ns=None, self_ty="F",
+             generic=True, key=("Signum0", "negate_if")),
+        dict(file=FQ2, path=[r"impl\s+SqrtField\s+for\s+Fq2\s*\{"], fn="legendre", ns="Fq2", self_ty="Fq2"),
+        dict(file=FQ2, path=[r"impl\s+SqrtField\s+for\s+Fq2\s*\{"], fn="sqrt", ns="Fq2", self_ty="Fq2"),
+        dict(file=FQ2, path=[r"impl\s+Signum0\s+for\s+Fq2\s*\{"], fn="sgn0", ns="Fq2", self_ty="Fq2"),
+        dict(file=FQ2, path=[r"impl\s+Ord\s+for\s+Fq2\s*\{"], fn="cmp", ns="Fq2", self_ty="Fq2"),
+    ]
     # ---- Fq6
     + tower_targets(FQ6, "Fq6", ["mul_by_nonresidue", "mul_by_1", "mul_by_01"],
                     ["zero", "one", "is_zero", "double", "negate", "add_assign", "sub_assign", "frobenius_map", "square",
@@ -1571,10 +2206,53 @@ TARGETS = (
         ec_target(IMPL_CP, "negate", "Jac", JACF),
         ec_target(r"impl\s+From<\$affine>\s+for\s+\$projective\s*\{", "from", "Aff", None, lean="toJac", free=True),
         ec_target(r"impl\s+From<\$projective>\s+for\s+\$affine\s*\{", "from", "Jac", None, lean="toAffine", free=True),
+        # scalar multiplication, subgroup test, point from x
+        ec_target(IMPL_A, "mul_bits", "Aff", AFFF),
+        ec_target(IMPL_CA, "mul", "Aff", AFFF),
+        ec_target(IMPL_CP, "mul_assign", "Jac", JACF, lean="mulAssign"),
+        ec_target(IMPL_A, "get_point_from_x", "Aff", AFFF, extern={"$affine::get_coeff_b": ("coeff_b", "F")},
+                  key=("static", "$affine::get_point_from_x")),
+        ec_target(IMPL_A, "is_in_correct_subgroup_assuming_on_curve", "Aff", AFFF,
+                  extern={"$scalarfield::char": ("scalar_char", "Repr")}),
+        # default methods of `trait CurveProjective` (src/lib.rs); the macro does not override them
+        dict(file=LIB, path=[TRAIT_CP], fn="sub_assign", ns="Jac", self_ty=JACF, generic=True,
+             tymap={"Self::Affine": AFFF}, absent=[(EC, MACRO + [IMPL_CP], r"\bfn\s+sub_assign\b")]),
+        dict(file=LIB, path=[TRAIT_CP], fn="sub_assign_mixed", ns="Jac", self_ty=JACF, generic=True,
+             tymap={"Self::Affine": AFFF}, absent=[(EC, MACRO + [IMPL_CP], r"\bfn\s+sub_assign_mixed\b")]),
     ]
     # ---- osswu_help (generic)
     + [dict(file=OSSWU, path=[], fn="osswu_help", ns=None, lean="osswuHelp", self_ty=None, free=True, generic=True,
             tymap={"[F; 7]": ("Help", "F")})]
+    # ---- SubgroupCheck (outside the macro, once per group)
+    + [
+        dict(file=G1_RS, path=[r"impl\s+SubgroupCheck\s+for\s+G1Affine\s*\{"], fn="in_subgroup", ns="G1Affine",
+             self_ty=("Aff", "Fq")),
+        dict(file=G2_RS, path=[r"impl\s+SubgroupCheck\s+for\s+G2Affine\s*\{"], fn="in_subgroup", ns="G2Affine",
+             self_ty=("Aff", "Fq2"), fq2ops=True),
+    ]
+    # ---- hashing to the curve: optimized SWU maps, cofactor clearing, map_to_curve
+    + [
+        dict(file=OSSWU_G1, path=[r"impl\s+OSSWUMap\s+for\s+G1\s*\{"], fn="osswu_map", ns="G1", self_ty=None,
+             key=("static", "G1::osswu_map"),
+             consts={"XI": ("(Fq.ofMont Gen.G1_XI)", "Fq", r"\bconst\s+XI\s*:\s*Fq\s*="),
+                     "ELLP_A": ("(Fq.ofMont Gen.G1_ELLP_A)", "Fq", r"\bconst\s+ELLP_A\s*:\s*Fq\s*="),
+                     "ELLP_B": ("(Fq.ofMont Gen.G1_ELLP_B)", "Fq", r"\bconst\s+ELLP_B\s*:\s*Fq\s*="),
+                     "SQRT_M_XI_CUBED": ("(Fq.ofMont Gen.G1_SQRT_M_XI_CUBED)", "Fq", r"\bconst\s+SQRT_M_XI_CUBED\s*:\s*Fq\s*=")}),
+        dict(file=OSSWU_G2, path=[r"impl\s+OSSWUMap\s+for\s+G2\s*\{"], fn="osswu_map", ns="G2", self_ty=None,
+             key=("static", "G2::osswu_map"), fq2ops=True,
+             consts={"XI": ("(Fq2.ofMont Gen.G2_XI)", "Fq2", r"\bconst\s+XI\s*:\s*Fq2\s*="),
+                     "ELLP_A": ("(Fq2.ofMont Gen.G2_ELLP_A)", "Fq2", r"\bconst\s+ELLP_A\s*:\s*Fq2\s*="),
+                     "ELLP_B": ("(Fq2.ofMont Gen.G2_ELLP_B)", "Fq2", r"\bconst\s+ELLP_B\s*:\s*Fq2\s*=")},
+             tables={"ROOTS_OF_UNITY": ("(Gen.G2_ROOTS_OF_UNITY.map Fq2.ofMont)", "Fq2"),
+                     "ETAS": ("(Gen.G2_ETAS.map Fq2.ofMont)", "Fq2")}),
+        dict(file=COFACTOR, path=[r"impl\s+ClearH\s+for\s+G1\s*\{"], fn="clear_h", ns="G1", self_ty=("Jac", "Fq")),
+        dict(file=COFACTOR, path=[r"impl\s+ClearH\s+for\s+G2\s*\{"], fn="clear_h", ns="G2", self_ty=("Jac", "Fq2"),
+             fq2ops=True),
+        dict(file=MAP_TO_CURVE, path=[IMPL_MTC], fn="map_to_curve", ns=None, self_ty=None, partial=True,
+             tymap={"PtT": "PtT", "PtT::Base": "Base"}, abstract=ABSTRACT_MTC),
+        dict(file=MAP_TO_CURVE, path=[IMPL_MTC], fn="map2_to_curve", ns=None, self_ty=None, partial=True,
+             tymap={"PtT": "PtT", "PtT::Base": "Base"}, abstract=ABSTRACT_MTC),
+    ]
     # ---- pairing
     + [
         dict(file=MOD, path=[r"fn\s+from_affine\b[^{]*\{"], fn="doubling_step", ns=None, lean="doublingStep",
@@ -1605,10 +2283,17 @@ One Lean definition per Rust function, one `let` per Rust statement (the stateme
 comment).  `&mut self` methods return the new `self`.  Operations on `Fq` / the generic `F` are the
 notations and `FieldOps` members of PP/Model/Field.lean; operations on `Fq2 Fq6 Fq12 Jac Aff` are
 calls of the functions generated EARLIER IN THIS FILE (always written `A.<Type>.<fn>`), never of the
-hand-written model.  From the model only types, Frobenius coefficient tables, `powLimbs` and
-`PP.Gen` constants are used.  PP/Proofs/GenArith.lean proves each definition equal to the model's.
+hand-written model.  From the model only types, Frobenius coefficient tables, `PP.Gen` constants and
+what is NOT in /repo are used: `powLimbs` / `bitsMSB` / `limbsOf` (`Field::pow`, `BitIterator` of the
+ff crate), `SqrtOps.sqrt/legendre/lt` and `compare _.v _.v` of the base field (derive-generated), and
+the separately extracted addition chains `PP.chainPm3div4` .. `PP.chainH2Eff`.
+`for` loops are `List.foldl` (state = the outer variables assigned in the body) or, with an early
+`return`, `List.findSome?`; `panic!` / a failing `unwrap` is `none`; `debug_assert!` is dropped
+(release semantics).  PP/Proofs/GenArith.lean proves each definition equal to the model's.
 -/
 import PP.Model.Pairing
+
+set_option linter.unusedVariables false   -- e.g. a loop state variable that is not read after the loop
 
 namespace PP.Gen.A
 """
@@ -1622,12 +2307,26 @@ INST_BUNDLE = """/-- the GENERATED operations of `{T}` packaged for the generic 
 @[reducible] def {T}.instFieldOps : FieldOps {T} := ⟨A.{T}.square, A.{T}.double, A.{T}.inverse, A.{T}.isZero, A.{T}.frobeniusMap⟩
 """
 
-GENERIC_VARS = "variable {F : Type} [Add F] [Sub F] [Mul F] [Neg F] [Zero F] [One F] [FieldOps F] [DecidableEq F]"
+FQ2_EXTRA = """/-- the remaining GENERATED operations of `Fq2` as notation-class bundles (plain definitions).  Below,
+    a definition that applies GENERIC code (`curve_impl!`, `osswu_help`, `negate_if`, all generic in the
+    coefficient field) to `Fq2` values is elaborated with these bundles as LOCAL instances, which take
+    precedence over the model's: also there, no generated definition uses the model's arithmetic. -/
+@[reducible] def Fq2.instAdd : Add Fq2 := ⟨A.Fq2.add⟩
+@[reducible] def Fq2.instSub : Sub Fq2 := ⟨A.Fq2.sub⟩
+@[reducible] def Fq2.instNeg : Neg Fq2 := ⟨A.Fq2.neg⟩
+@[reducible] def Fq2.instZero : Zero Fq2 := ⟨A.Fq2.zero⟩
+"""
+FQ2_LOCAL = ("section\nattribute [local instance] Fq2.instAdd Fq2.instSub Fq2.instMul Fq2.instNeg Fq2.instZero "
+             "Fq2.instOne Fq2.instFieldOps\n")
+
+GENERIC_VARS = "variable {F : Type} [Add F] [Sub F] [Mul F] [Neg F] [Zero F] [One F] [FieldOps F] [SqrtOps F] [DecidableEq F]"
 
 
 def render(lines):
     out = []
     for l in lines:
+        if len(l.cmt) > 150:
+            l.cmt = l.cmt[:146] + " ..."
         code = "  " * l.ind + l.code
         if l.cmt:
             if l.code:
@@ -1683,6 +2382,7 @@ def translate(repo_dir):
     bundled = set()
     cur_file = None
     generic_on = False
+    fq2_extra = False
     names = []
     for tg in TARGETS:
         rel = tg["file"]
@@ -1706,12 +2406,45 @@ def translate(repo_dir):
         tymap.update(tg.get("tymap", {}))
         if tg["self_ty"] is not None:
             tymap["Self"] = tg["self_ty"]
-        tr = Translator(registry, src, what, tymap, tg["self_ty"], tg.get("extern", {}))
+        for arel, apath, arx in tg.get("absent", []):
+            # e.g. a trait default method is only the method of a type if the impl does not override it
+            _, asrc = load(arel)
+            aa, ab = 0, len(asrc)
+            for rx in apath:
+                _, aa, ab = find_container(asrc, aa, ab, rx, what)
+            if re.search(arx, asrc[aa:ab]):
+                raise ExtractError("%s: /%s/ is now defined in %s (override of the default method)" % (what, arx, arel))
+        consts, tables = {}, {}
+        for cname, (ctext, cty, crx) in tg.get("consts", {}).items():
+            # a constant of the file: the declaration must be there with the expected type
+            if len(re.findall(crx, src)) != 1:
+                raise ExtractError("%s: declaration /%s/ of constant %s not found" % (what, crx, cname))
+            consts[cname] = (ctext, cty)
+        for tname, (ttext, telt) in tg.get("tables", {}).items():
+            ms = list(re.finditer(r"\bconst\s+%s\s*:\s*\[\s*(\w+)\s*;\s*(\d+)\s*\]\s*=" % tname, src))
+            if len(ms) != 1 or ms[0].group(1) != telt:
+                raise ExtractError("%s: declaration of table %s : [%s; _] not found" % (what, tname, telt))
+            tables[tname] = (ttext, telt, int(ms[0].group(2)))
+        reg = registry
+        implicit = ""
+        if tg.get("abstract"):
+            # a function generic over a TRAIT: abstract types, and the trait methods it calls become parameters
+            reg = dict(registry)
+            ab_ = tg["abstract"]
+            implicit = " {%s : Type}" % " ".join(ab_["types"])
+            for akey, ainfo in ab_["methods"].items():
+                reg[akey] = ainfo
+        tr = Translator(reg, src, what, tymap, tg["self_ty"], tg.get("extern", {}), consts, tables)
         ast = parse_fn(src, f0, f1, what)
-        sigline, lines = tr.run(ast, lean_name, tg.get("nested", []))
+        sigline, lines = tr.run(ast, lean_name, tg.get("nested", []), generic=bool(tg.get("generic")),
+                                force_partial=bool(tg.get("partial")), implicit=implicit,
+                                extern_order=[ai.extern[0][0] for ai in tg["abstract"]["methods"].values()]
+                                if tg.get("abstract") else None)
         key = ("fn", tg["fn"]) if tg.get("free") and tg["fn"] != "from" else (ns, tg["fn"])
         if tg["fn"] == "from":
             key = (ns, "from->" + lean_short)
+        if tg.get("key"):
+            key = tg["key"]
         if key in registry:
             raise ExtractError("%s: duplicate registry key %r" % (what, key))
         registry[key] = tr.info
@@ -1728,10 +2461,17 @@ def translate(repo_dir):
             out.append("section\n" + GENERIC_VARS + "\n")
             generic_on = True
         sig_src = " ".join(src[f0:o].split())
+        if tg.get("fq2ops"):
+            if not fq2_extra:
+                out.append(FQ2_EXTRA)
+                fq2_extra = True
+            out.append(FQ2_LOCAL)
         out.append("/-- `%s`  (%s:%d-%d) -/" % (sig_src, rel, l0, l1))
         out.append(sigline)
         out.append(render(lines))
         out.append("")
+        if tg.get("fq2ops"):
+            out.append("end\n")
         names.append(lean_name)
         if ns in TOWER and all((ns, m_) in registry for m_ in INST_METHODS) and ns not in bundled:
             bundled.add(ns)
